@@ -328,3 +328,8 @@ Proof.
   - intros i Hi. apply Proofs.Phospho.memn_In in Hi. apply (Proofs.Phospho.sites_in_range_STY s ops i) in Hi. tauto.
 Qed.
 Print Assumptions get_phosphosequence_reachable.
+
+(* ---------- the public getters (SequenceParameters) are exactly a return of the backend call with their own arguments ---------- *)
+Lemma fw_get_phosphosites : g_fw_get_phosphosites = SReturn (ECall "SeqObj.get_phosphosites"%string []). Proof. reflexivity. Qed.
+Lemma fw_get_all_phosphorylatable_sites : g_fw_get_all_phosphorylatable_sites = SReturn (ECall "SeqObj.get_STY_residues"%string []). Proof. reflexivity. Qed.
+Lemma fw_get_phosphosequence : g_fw_get_phosphosequence = SReturn (ECall "SeqObj.get_phosphosequence"%string []). Proof. reflexivity. Qed.
